@@ -82,6 +82,9 @@ impl Scenario for Basic {
                 let ch = conn.open_channel(None);
                 ctx.log(format!("open_channel -> {}", res(&ch)));
                 if let Ok(ch) = ch {
+                    // any free id is a legal answer to open_channel(None): the expected reply
+                    // values follow the id actually handed out
+                    ctx.log(format!("id {}", ch.channel_id()));
                     let q = ch.queue_declare("q1", QueueDeclareOptions::default());
                     ctx.log(format!("declare -> {:?}", q.as_ref().map(|q| (q.name().to_string(), q.declared_message_count(), q.declared_consumer_count())).map_err(err_name)));
                     let r = ch.close();
@@ -95,8 +98,9 @@ impl Scenario for Basic {
     fn check(&self, _p: &Value, o: &Outcome, _w: &World) -> Vec<(String, String)> {
         let mut v = Vec::new();
         let log = o.logs.get("main").cloned().unwrap_or_default();
-        let want = vec!["open -> Ok", "open_channel -> Ok", "declare -> Ok((\"q1\", Some(1002), Some(102)))", "channel close -> Ok", "close -> Ok"];
-        if log != want {
+        let id: u32 = log.iter().find_map(|l| l.strip_prefix("id ")).and_then(|x| x.parse().ok()).unwrap_or(0);
+        let want = vec!["open -> Ok".to_string(), "open_channel -> Ok".to_string(), format!("id {}", id), format!("declare -> Ok((\"q1\", Some({}), Some({})))", id * 1000 + 2, id * 100 + 2), "channel close -> Ok".to_string(), "close -> Ok".to_string()];
+        if log != want || id == 0 {
             v.push(("basic:results".to_string(), format!("results {:?} expected {:?}", log, want)));
         }
         if !o.io_gone || !o.transport_dropped {
@@ -366,6 +370,33 @@ impl Scenario for Close {
                 }
             }
         }
+        // the close point: the I/O thread acts on the server's Close / takes the client's close
+        // request. Every byte it accepted from a channel before that point is written, none of
+        // what it takes afterwards is (no frame on channels 1 and 2 originates in the I/O thread
+        // itself in this scenario).
+        {
+            use amiquip::verif::MsgKind;
+            use vh::sim::world::IoEvent;
+            let cut = o.io_events.iter().position(|e| match e {
+                IoEvent::Frame(AMQPFrame::Method(0, AMQPClass::Connection(pconnection::AMQPMethod::Close(_)))) => server,
+                IoEvent::Recv { msg: MsgKind::ConnectionClose { .. }, .. } => !server,
+                _ => false,
+            });
+            if let (Some(cut), 0) = (cut, rest) {
+                for chan in [1u16, 2] {
+                    let accepted: usize = o.io_events[..cut].iter().map(|e| match e {
+                        IoEvent::Recv { channel_id, msg: MsgKind::Send { len }, .. } if *channel_id == chan => *len,
+                        _ => 0,
+                    }).sum();
+                    let written: usize = envs.iter().filter(|e| e.chan == chan).map(|e| e.wire_len()).sum();
+                    if written < accepted {
+                        v.push(("close:queued-data-not-written".into(), format!("channel {}: the I/O thread had accepted {} bytes before the close point but only {} reached the wire", chan, accepted, written)));
+                    } else if written > accepted {
+                        v.push(("close:written-after-close-point".into(), format!("channel {}: {} bytes on the wire but only {} were accepted before the close point", chan, written, accepted)));
+                    }
+                }
+            }
+        }
         // channels: the first failing call names the cause, everything after fails too
         for actor in ["a", "b"] {
             let log = o.logs.get(actor).cloned().unwrap_or_default();
@@ -584,12 +615,40 @@ impl Scenario for Death {
             Some(r) => {
                 // a fault that never became visible (crash offset beyond the stream, write call
                 // never made, frame never sent) leaves a clean close
-                let clean_ok = got_closeok && r == "Ok";
+                // (a corrupted frame is not sticky like the other faults: if the server emitted one,
+                // it precedes CloseOk in the stream and a clean close means it was overlooked)
+                let corrupt_emitted = fault == "malformed" && {
+                    let b = &o.inbound;
+                    let mut pos = 0usize;
+                    let mut bad = false;
+                    while pos + 8 <= b.len() {
+                        let size = u32::from_be_bytes([b[pos + 3], b[pos + 4], b[pos + 5], b[pos + 6]]) as usize;
+                        if pos + 8 + size > b.len() {
+                            break;
+                        }
+                        if b[pos + 7 + size] != 0xCE {
+                            bad = true;
+                            break;
+                        }
+                        pos += 8 + size;
+                    }
+                    bad
+                };
+                let clean_ok = got_closeok && r == "Ok" && !corrupt_emitted;
                 if !want.contains(&r) && !clean_ok {
                     v.push((format!("death:close-result:{}", r), format!("Connection::close returned {} expected {:?} (fault {}); main log {:?}", r, want, fault, main)));
                 }
                 if r == "Ok" && !got_closeok {
                     v.push(("death:close-ok-without-closeok".into(), "close returned Ok although no CloseOk was ever received".into()));
+                }
+            }
+        }
+        // the connection handle itself: once one of its calls failed, the later ones fail too
+        {
+            let calls = call_results(&main);
+            if let Some(i) = calls.iter().position(|(_, r)| r.starts_with("Err")) {
+                if let Some((op, r)) = calls[i..].iter().find(|(_, r)| !r.starts_with("Err")) {
+                    v.push(("death:call-after-death-succeeded".into(), format!("connection handle: {} -> {} after an earlier call had failed; log {:?}", op, r, main)));
                 }
             }
         }
